@@ -81,3 +81,8 @@ def nontrivial(h):
         if ln.startswith('cfg '):
             covs.add(next(t for t in ln.split() if t.startswith('covord=')))
     return len(covs) >= 2
+
+
+def must_reject(line):
+    """C18: with overlap checking, overlapping inputs must raise"""
+    return line.startswith('cat ') and ' check=1' in line
